@@ -13,7 +13,7 @@ Open Scope Q_scope.
    effect, no stray power of sqrt2 remains, and the value is the marginal weight of the prefix ms *)
 Theorem C06_plug : forall (T : tensor) n k ms, (k <= n)%nat -> length ms = k ->
   length (plug_effect n k) = n /\ plug_power n k ms = 0%Z /\ plug_coeff T n k ms == marg T n ms.
-Proof. intros T n k ms Hk Hl. split; [exact (plug_effect_length n k Hk) | split; [exact (plug_power_zero n k ms Hk Hl) | exact (plug_coeff_marg T n k ms Hk Hl)]]. Qed.
+Proof. exact plug_correct. Qed.
 
 (* all graphs of a component (normalisation and plugged ones) are rescaled by the same power of two *)
 Theorem C06_common_scale : forall pw g g', power2_base_of pw g = power2_base_of pw g'.
